@@ -226,6 +226,19 @@ def _decorate_namespace_function(
         contract_checker.__postconditions__ = postconditions  # type: ignore
 
 
+def _is_accessor_defined_in_bases(bases: List[type], func: Callable[..., Any]) -> bool:
+    """Check whether ``func`` is the very getter, setter or deleter of a property of the ``bases`` or their ancestors."""
+    for base in bases:
+        for cls in inspect.getmro(base):
+            for a_value in vars(cls).values():
+                if isinstance(a_value, property) and (
+                    a_value.fget is func or a_value.fset is func or a_value.fdel is func
+                ):
+                    return True
+
+    return False
+
+
 def _decorate_namespace_property(
     bases: List[type], namespace: MutableMapping[str, Any], key: str
 ) -> None:
@@ -241,6 +254,12 @@ def _decorate_namespace_property(
         func = cast(Callable[..., Any], func)
 
         if func is None:
+            continue
+
+        # An accessor taken over from a property of a base (*e.g.*, the getter in ``@SomeBase.some_prop.setter``)
+        # keeps its contracts as-is, as if it were inherited. Its contract checker belongs to the base and
+        # must not be changed, lest we change the contracts of the base class.
+        if _is_accessor_defined_in_bases(bases=bases, func=func):
             continue
 
         # Collect the preconditions and postconditions from bases
